@@ -6,7 +6,9 @@ from os.path import join as pjoin
 
 from ..const import EBD_PATH
 
-incrementals_unfinalized = ("USE",)
+# negations in these have to survive profile stacking: they act on what comes
+# earlier (IUSE defaults for USE, license groups and "*" for ACCEPT_LICENSE).
+incrementals_unfinalized = ("USE", "ACCEPT_LICENSE")
 
 metadata_keys = (
     "BDEPEND",
